@@ -27,6 +27,7 @@ type dtlsrState struct {
 	seq        int
 	ticks      []time.Time // recompute tick instants after the last change
 	tickSeq    []int
+	lsFrom     map[string]int // link-state bundle ID -> peer named in the previous-node block it arrived with
 	purge      time.Duration
 	lsSeq      int
 	sentOK     map[string]map[int]int // broadcast bundle id -> peer -> epoch of success
@@ -173,6 +174,14 @@ func (n *nodeSim) execLS(p int, origin int, tsRel int64, x []int) {
 	} else {
 		n.res.Probe("dtlsr_linkstate_stale_or_equal")
 		n.res.Fault("ls_stale_or_dup")
+	}
+	if p >= 1 && p < len(n.peers) {
+		if st.lsFrom == nil {
+			st.lsFrom = map[string]int{}
+		}
+		if _, dup := st.lsFrom[pb.ID().String()]; !dup {
+			st.lsFrom[pb.ID().String()] = p
+		}
 	}
 	recv := n.recv
 	n.inject("ls:"+oid, func() {
@@ -382,8 +391,9 @@ func (n *nodeSim) dtlsrBroadcastSend(rec *sendRec, done bool) {
 	if ep, ok := st.sentOK[rec.idStr][rec.peer]; ok && ep < rec.rootEpoch && rec.incarn == n.incarn {
 		n.res.Violate("C13", "not-twice", "broadcast-resent-after-success/dtlsr", "link-state bundle %s was transmitted successfully to p%d (epoch %d) and offered to it again (dispatch of epoch %d)", rec.idStr, rec.peer, ep, rec.rootEpoch)
 	}
-	if pb, err := rec.bundle.ExtensionBlock(bpv7.ExtBlockTypePreviousNodeBlock); err == nil {
-		_ = pb
+	// C13: a broadcast bundle never goes back to the peer named in the previous-node block it arrived with
+	if from, ok := st.lsFrom[rec.idStr]; ok && from == rec.peer {
+		n.res.Violate("C13", "not-back", "broadcast-sent-back-to-previous-node/dtlsr", "link-state bundle %s arrived with previous node p%d and was offered to p%d", rec.idStr, from, rec.peer)
 	}
 }
 
